@@ -104,7 +104,7 @@ PLANS = {
         'level': 'model_checking', 'rule': RULE_HIST + '; answer grammar (single, multi, CNAME chain, mixed families + foreign class) x hints x sortlists x lookup orders x hosts files; provenance markers per resource record', 'assumptions': ASSUME, 'targets': T,
         'deadline': {'quick': 420, 'thorough': 2400},
         'jobs': [
-            job('addrs', 'addrs', 'C13', {'quick': 4, 'thorough': 5}, 1, wit=['c13_set_checked', 'fault_fired', 'c13_multi_address', 'c13_non_dns_checked', 'c13_loopback_checked', 'c13_reverse_question_checked']),
+            job('addrs', 'addrs', 'C13', {'quick': 4, 'thorough': 5}, 1, wit=['c13_set_checked', 'fault_fired', 'c13_multi_address', 'c13_non_dns_checked', 'c13_non_dns_port_checked', 'c13_loopback_checked', 'c13_reverse_question_checked']),
         ],
     },
     'C17': {
